@@ -40,6 +40,8 @@ type RunOpts struct {
 	Mode      string // "", "c01", "c03", "c18"
 	Stop      bool
 	StopSig   string
+	OnlyReplica string // shrink: replay only the diverging replica
+	Thorough  bool
 }
 
 func defaultOracles(e *Env) {
@@ -80,6 +82,7 @@ func Generate(seed uint64, profName string, opt RunOpts) *RunResult {
 			break
 		}
 	}
+	e.Thorough = opt.Thorough
 	if len(e.Viol) == 0 || !e.StopOnViolation {
 		e.RunReplicas(opt.Mode)
 	}
@@ -122,6 +125,8 @@ func Replay(tr *Trace, opt RunOpts) *RunResult {
 			}
 		}
 	}
+	e.OnlyReplica = opt.OnlyReplica
+	e.Thorough = opt.Thorough
 	e.RunReplicas(opt.Mode)
 	e.Finish()
 	finishResult(e, tr, res, opt)
